@@ -1063,7 +1063,7 @@ class AdbDevice(object):
         self._filesync_send(constants.SEND, adb_info, filesync_info, data=fileinfo)
 
         if progress_callback:
-            total_bytes = stream.getbuffer().nbytes if isinstance(stream, BytesIO) else os.fstat(stream.fileno()).st_size
+            total_bytes = stream.getbuffer().nbytes - stream.tell() if isinstance(stream, BytesIO) else os.fstat(stream.fileno()).st_size
 
         while True:
             data = stream.read(self.max_chunk_size)
